@@ -316,6 +316,10 @@ func drawB(t *rapid.T) BCase {
 		c.Big = rapid.IntRange(1, 6).Draw(t, "big")
 	}
 	c.Omit = rapid.SampledFrom([]int{0, 0, 1, 2}).Draw(t, "omit")
+	if c.Big > 0 {
+		// the modes that skip data matter most where a record is read in several steps
+		c.Omit = rapid.SampledFrom([]int{2, 2, 1, 0}).Draw(t, "omitBig")
+	}
 	return c
 }
 
